@@ -12,6 +12,9 @@ import Mathlib.Tactic.Linarith
 arithmetic, `Real.sqrt`, `Real.cos`, `Real.sign`.  The lemmas of this file restate each generated formula in closed
 form (they are proved from the generated term, so a changed source formula makes them fail).
 -/
+set_option linter.unusedTactic false
+set_option linter.unreachableTactic false
+set_option linter.unusedVariables false
 namespace QipVerif.DevReal
 open QipVerif.Dev QipVerif.Gen
 
@@ -100,6 +103,44 @@ theorem scq_rotArea_eq (θ : ℝ) : SCQ.rotArea Real.pi θ = θ / (2 * Real.pi) 
   have := Real.pi_ne_zero
   push_cast
   field_simp
+
+/-- the amplitude handed to `generate_pulse_shape` by the superconducting compiler: lowered in proportion to the area
+below a quarter turn exactly when the source contains the floor (`rotFloor`, fixes/C18-3.patch) -/
+theorem scq_rotMax_eq (Ω a : ℝ) :
+    SCQ.rotMax Ω a = if SCQ.rotFloor = true ∧ 0 < |a| ∧ |a| < 1 / 4 then Ω * |a| / (1 / 4) else Ω := by
+  unfold SCQ.rotMax SCQ.rotFloor
+  first
+    | (simp; done)
+    | (have e0 : (DArith.lt (DArith.ofFrac 0 1 : ℝ) (DArith.abs a) = true) ↔ 0 < |a| := by
+         rw [lt_iff]; show ((0 : ℤ) : ℝ) / ((1 : ℕ) : ℝ) < |a| ↔ _; simp
+       have e1 : (DArith.lt (DArith.abs a) (DArith.ofFrac 1 4 : ℝ) = true) ↔ |a| < 1 / 4 := by
+         rw [lt_iff]; show |a| < ((1 : ℤ) : ℝ) / ((4 : ℕ) : ℝ) ↔ _; push_cast; rfl
+       have ev : (DArith.div (DArith.mul Ω (DArith.abs a)) (DArith.ofFrac 1 4 : ℝ)) = Ω * |a| / (1 / 4) := by
+         show Ω * |a| / (((1 : ℤ) : ℝ) / ((4 : ℕ) : ℝ)) = _; push_cast; rfl
+       rw [ev]
+       by_cases h0 : 0 < |a| <;> by_cases h1 : |a| < 1 / 4 <;> simp [h0, h1, e0.mpr, e1.mpr, Bool.and_eq_true] <;>
+         simp_all)
+
+theorem scq_rotMax_ne_zero (Ω a : ℝ) (hΩ : Ω ≠ 0) : SCQ.rotMax Ω a ≠ 0 := by
+  rw [scq_rotMax_eq]
+  split
+  · rename_i h
+    have : |a| ≠ 0 := ne_of_gt h.2.1
+    positivity
+  · exact hΩ
+
+/-- with the floor, the pulse of a rotation is never shorter than that of a quarter turn -/
+theorem scq_floor_duration (Ω a t0 : ℝ) (hΩ : Ω ≠ 0) (hf : SCQ.rotFloor = true) (ha : a ≠ 0) :
+    SCQ.pulseDur t0 (SCQ.rotMax Ω a) a = t0 * (max |a| (1 / 4) / |Ω|) := by
+  have hΩ' : |Ω| ≠ 0 := abs_ne_zero.mpr hΩ
+  have ha' : 0 < |a| := abs_pos.mpr ha
+  rw [scq_pulseDur_eq, scq_rotMax_eq]
+  by_cases h : |a| < 1 / 4
+  · rw [if_pos ⟨hf, ha', h⟩, max_eq_right (le_of_lt h), abs_div, abs_mul, abs_abs]
+    have : |(1 / 4 : ℝ)| = 1 / 4 := abs_of_pos (by norm_num)
+    rw [this]
+    field_simp
+  · rw [if_neg (fun hh => h hh.2.2), max_eq_left (not_lt.mp h)]
 
 /-! ## control prefactors -/
 
